@@ -88,7 +88,7 @@ let eval (op : string) (args : sx list) : sx list =
   | "alias_table", [n; sp; i] ->
     let (b, r) = alias_table (z_of_sx n) (z_of_sx sp) (z_of_sx i) in
     [A "ok"; L (List.map sx_of_z b); L (List.map sx_of_z r)]
-  | "alias", _ -> [A "same"]
+  | "alias", _ | "alias_seq", _ -> [A "same"] (* the frame theorems: nothing the caller holds changes *)
   | _ -> [A "unknown-op"]
 
 let () =
